@@ -45,7 +45,7 @@ IsRef(v) == v.t = "ref"
 IsNum(v) == v.t \in {"int", "bool"}
 
 \* character symbols in code-point order; "e9" stands for U+00E9 (rendered by the driver)
-Alphabet == <<",", "A", "B", "a", "b", "c", "e9">>
+Alphabet == <<",", "A", "B", "C", "a", "b", "c", "c9", "e9">>      \* "c9" is U+00C9, the upper case of "e9"
 Rank(c)  == CHOOSE k \in 1..Len(Alphabet) : Alphabet[k] = c
 
 \* heap objects
@@ -76,7 +76,8 @@ Lits == << TL(<<TI(3), TI(1), TI(2)>>),                                   \* 1
            TS(<<"a", "b">>),                                              \* 8
            TD(<<<<"b">>>>, <<TI(5)>>),                                    \* 9
            TL(<<TI(1), TI(1)>>),                                          \* 10 duplicates
-           TN >>                                                          \* 11
+           TN,                                                            \* 11
+           TS(<<"a", ",", "e9", ",", "B", "a">>) >>                       \* 12 for the string methods
 
 RECURSIVE Alloc(_, _, _), AllocSeq(_, _, _, _, _)
 Alloc(t, h, fz) ==
@@ -417,6 +418,47 @@ ExecForLit(st, S, F) ==
        IF F.augRebinds THEN BindNew(S, st.a, NewList(Elems(va, r2.h) \o <<r1.v, r2.v>>, r2.h))
        ELSE Bind(S, st.a, va, [r2.h EXCEPT ![va.i].e = @ \o <<r1.v, r2.v>>])
 
+\* ------------------------------------------------------------------ string methods (strings are character sequences)
+Upper(c) == CASE c = "a" -> "A" [] c = "b" -> "B" [] c = "c" -> "C" [] c = "e9" -> "c9" [] OTHER -> c
+Lower(c) == CASE c = "A" -> "a" [] c = "B" -> "b" [] c = "C" -> "c" [] c = "c9" -> "e9" [] OTHER -> c
+RECURSIVE SplitCh(_, _, _, _)
+SplitCh(s, c, cur, acc) == IF s = <<>> THEN Append(acc, cur)
+                           ELSE IF s[1] = c THEN SplitCh(Tail(s), c, <<>>, Append(acc, cur))
+                           ELSE SplitCh(Tail(s), c, Append(cur, s[1]), acc)
+Positions(s, c) == {j \in 1..Len(s) : s[j] = c}
+MinOfSet(S) == CHOOSE m \in S : \A o \in S : m <= o
+MaxOfSet(S) == CHOOSE m \in S : \A o \in S : m >= o
+RECURSIVE LStrip(_, _), RStrip(_, _), JoinStrs(_, _)
+LStrip(s, cs) == IF s # <<>> /\ s[1] \in cs THEN LStrip(Tail(s), cs) ELSE s
+RStrip(s, cs) == IF s # <<>> /\ s[Len(s)] \in cs THEN RStrip(SubSeq(s, 1, Len(s) - 1), cs) ELSE s
+JoinStrs(es, sep) == IF es = <<>> THEN <<>> ELSE IF Len(es) = 1 THEN es[1].s ELSE es[1].s \o sep \o JoinStrs(Tail(es), sep)
+StrFns == {"upper", "lower", "split", "replace", "find", "rfind", "count", "startswith", "endswith", "strip"}
+\* x.upper() x.lower() x.split(",") x.replace("a", "c") x.find("B") x.rfind(",") x.count("a") x.startswith("a")
+\* x.endswith("B") x.strip("aB")   and   ",".join(x)        (partition is modelled but not generated: CPython returns a tuple)
+ExecStr(st, S, F) ==
+  IF ~Def(S, st.x) THEN Fail(S)
+  ELSE LET vx == S.env[st.x] IN
+       IF st.f = "join" THEN
+            IF IsList(vx, S.h) /\ AllT(Elems(vx, S.h), "str") THEN Bind(S, st.a, StrV(JoinStrs(Elems(vx, S.h), <<",">>)), S.h) ELSE Fail(S)
+       ELSE IF vx.t # "str" THEN Fail(S)
+       ELSE LET t == vx.s IN
+            CASE st.f = "upper" -> Bind(S, st.a, StrV([j \in 1..Len(t) |-> Upper(t[j])]), S.h)
+              [] st.f = "lower" -> Bind(S, st.a, StrV([j \in 1..Len(t) |-> Lower(t[j])]), S.h)
+              [] st.f = "split" -> LET ps == SplitCh(t, ",", <<>>, <<>>) IN
+                                   BindNew(S, st.a, NewList([j \in 1..Len(ps) |-> StrV(ps[j])], S.h))
+              [] st.f = "replace" -> Bind(S, st.a, StrV([j \in 1..Len(t) |-> IF t[j] = "a" THEN "c" ELSE t[j]]), S.h)
+              [] st.f = "find"  -> Bind(S, st.a, IntV(IF Positions(t, "B") = {} THEN 0 - 1 ELSE MinOfSet(Positions(t, "B")) - 1), S.h)
+              [] st.f = "rfind" -> Bind(S, st.a, IntV(IF Positions(t, ",") = {} THEN 0 - 1 ELSE MaxOfSet(Positions(t, ",")) - 1), S.h)
+              [] st.f = "count" -> Bind(S, st.a, IntV(Cardinality(Positions(t, "a"))), S.h)
+              [] st.f = "startswith" -> Bind(S, st.a, BoolV(t # <<>> /\ t[1] = "a"), S.h)
+              [] st.f = "endswith" -> Bind(S, st.a, BoolV(t # <<>> /\ t[Len(t)] = "B"), S.h)
+              [] st.f = "strip" -> Bind(S, st.a, StrV(RStrip(LStrip(t, {"a", "B"}), {"a", "B"})), S.h)
+              [] st.f = "partition" ->
+                   LET ps == Positions(t, ",") IN
+                   IF ps = {} THEN BindNew(S, st.a, NewList(<<StrV(t), StrV(<<>>), StrV(<<>>)>>, S.h))
+                   ELSE LET m == MinOfSet(ps) IN
+                        BindNew(S, st.a, NewList(<<StrV(SubSeq(t, 1, m - 1)), StrV(<<",">>), StrV(SubSeq(t, m + 1, Len(t)))>>, S.h))
+
 Exec(st, S, F) ==
   CASE st.k = "lit"    -> ExecLit(st, S, F)
     [] st.k = "alias"  -> IF Def(S, st.x) THEN Bind(S, st.a, S.env[st.x], S.h) ELSE Fail(S)
@@ -433,6 +475,7 @@ Exec(st, S, F) ==
     [] st.k = "binlit" -> ExecBinLit(st, S, F)
     [] st.k = "hof"    -> ExecHof(st, S, F)
     [] st.k = "forlit" -> ExecForLit(st, S, F)
+    [] st.k = "strm"   -> ExecStr(st, S, F)
 
 \* ------------------------------------------------------------------ the statement menu
 KeyMenu   == {<<"a">>, <<"c">>}
@@ -461,6 +504,7 @@ Menu ==
     IF "bin"    \in Kinds THEN {St("bin", a, x, y, 0, f, E, FALSE) : a \in Vars, x \in Vars, y \in Vars, f \in BinFns} ELSE {},
     IF "binlit" \in Kinds THEN {St("binlit", a, x, "", n, f, E, FALSE) : a \in Vars, x \in Vars, n \in LitIdx, f \in BinLitFns} ELSE {},
     IF "hof"    \in Kinds THEN {St("hof", a, x, "", 0, f, E, FALSE) : a \in Vars, x \in Vars, f \in {"map", "filter", "reduce"}} ELSE {},
+    IF "strm"   \in Kinds THEN {St("strm", a, x, "", 0, f, E, FALSE) : a \in Vars, x \in Vars, f \in StrFns \cup {"join"}} ELSE {},
     IF "forlit" \in Kinds THEN {St("forlit", a, "", "", n, "", E, FALSE) : a \in Vars, n \in ForLits} ELSE {} }
 
 \* ------------------------------------------------------------------ machine
@@ -531,10 +575,10 @@ EmitCase == Emit => PrintT(<<"CASE", ToJson([prog |-> prog, expect |-> Snap(sp),
 \* ------------------------------------------------------------------ constant sets named by the cfg files
 VarsXY    == {"x", "y"}
 VarsXYZ   == {"x", "y", "z"}
-KindsC16  == {"lit", "alias", "aug", "setidx", "setkey", "call", "compr", "slice", "getidx", "getkey", "un", "bin", "hof", "forlit"}
+KindsC16  == {"lit", "alias", "aug", "setidx", "setkey", "call", "compr", "slice", "getidx", "getkey", "un", "bin", "hof", "forlit", "strm"}
 KindsC18  == {"lit", "compr", "slice", "getidx", "getkey", "un", "bin", "binlit", "hof"}        \* no mutation: C18 is about reading imported values
 LitsAll   == 1..Len(Lits)
-LitsSmall == {1, 3, 4, 5}
+LitsSmall == {1, 3, 4, 5, 12}
 LitsC18   == {1, 2, 3, 4, 5, 6, 9}
 NoImports == {FALSE}
 Both      == {TRUE, FALSE}
